@@ -88,6 +88,20 @@ CHECKS["C08"] = ("TLC checks the lexical clause and the exact fidelity clause (|
                  "bytes and compares the word with the exact decimal expansion of the double (tolerance 1/2 unit + ulp).",
                  "5 C08", "Trusted: Decimal(x) as the exact expansion of a double; Format.tla's digit-sequence arithmetic; TLC.")
 
+TR_NOTE = ("Trusted: Machine.tla reconstructs the vertices; FixedPoint.tla (ISqrt, 16-step CORDIC, checked against exact "
+           "eighths of a turn in ShapesModel); tolerances stated in Tracer.tla; decimal_places=2 and |coordinates| <= 100 mm.")
+CHECKS["C10"] = ("TLC checks the sweep rule and the CORDIC on all compass-point cases (ShapesModel) and, on recorded executions of "
+                 "every tracer operation in both directions and modes, evaluates end point, start sample, constant radius, "
+                 "monotone direction, total sweep (minor/major, turns), Z and radius linear in the angle, spline control points "
+                 "in order and polyline points -- on vertices it reconstructs itself from the emitted G1 lines.", "5 C10", TR_NOTE)
+CHECKS["C11"] = ("Every request is executed in absolute mode and, expressed as offsets, in relative mode from the same start; TLC "
+                 "reconstructs both vertex sequences with the interpreter and compares them vertex by vertex (one rounding per "
+                 "relative move allowed).", "5 C11", TR_NOTE)
+CHECKS["C12"] = ("TLC explores the segment-filter automaton FilterImpl for every spacing sequence (kept segments within 0.9..1.01 "
+                 "resolutions, last sample kept); on recorded arcs/circles/arc_radius paths TLC checks maximum and minimum segment "
+                 "length, count proportional to length/resolution, count monotone under halving the resolution, the chord-error "
+                 "bound, and that a units switch preserves the physical resolution.", "5 C12", TR_NOTE)
+
 NOT_YET = {}
 
 
